@@ -29,6 +29,9 @@ function program() {
     // discriminator values that differ only in characters a component name cannot carry, or only in type
     Alias("DUsan", U(ObjT([Prop("kind", L("a-b")), Prop("x", P("number"))]), ObjT([Prop("kind", L("a_b")), Prop("y", P("string"))]), ObjT([Prop("kind", L("a b")), Prop("z", P("boolean"))]))),
     Alias("DUcase", U(ObjT([Prop("kind", L("ab")), Prop("x", P("number"))]), ObjT([Prop("kind", L("Ab")), Prop("y", P("string"))]))),
+    // recursion through an inline discriminated union that has the type itself as a variant, twice in one body
+    Alias("Leaf", ObjT([Prop("kind", L("leaf")), Prop("v", P("number"))])),
+    Alias("Tree", ObjT([Prop("kind", L("node")), Prop("left", U(Ref("Tree"), Ref("Leaf"))), Prop("right", U(Ref("Tree"), Ref("Leaf")))])),
     // a named type that cannot be printed (Map) next to printable ones: the throw must not poison the context
     Alias("HasMap", ObjT([Prop("m", MapT(P("string"), P("number"))), Prop("plain", Ref("Plain"))])),
   ];
@@ -54,6 +57,8 @@ function program() {
     ["P18", Ref("DUsan")],
     ["P19", ObjT([Prop("a", Ref("DUcase")), Prop("p", Ref("Plain"))])],
     ["P20", ObjT([Prop("plain", Ref("Plain")), Prop("h", Ref("HasMap"))])],
+    ["P21", Ref("Tree")],
+    ["P22", ObjT([Prop("t", U(Ref("Tree"), Ref("Leaf"))), Prop("l", Ref("Leaf"), true)])],
     ["POverride", Ref("Override")],
   ];
   return { decls, parsers };
@@ -256,7 +261,7 @@ export async function run() {
       traces_validated_against_impl: stats.states + stats.configs,
       samples,
       exhaustive: true,
-      explanation: "per configuration (parser set of size " + (TIER === "thorough" ? "2-4" : "2-3") + " out of 15 parsers sharing plain, recursive, mutually recursive, named/anonymous/recursive discriminated types × 3 ref-template/container settings × 3 override settings) BFS over all call sequences, state = canonical (exportDefinitions, in-progress set) read from the real context, reached by replay on a fresh context, run to closure; invariants in every state: nothing in progress, each definition equals the fresh-context definition, returned schema independent of history, all needed definitions present, every $ref resolves, export independent of order/repetition",
+      explanation: "per configuration (parser set of size " + (TIER === "thorough" ? "2-4" : "2-3") + " out of 22 parsers sharing plain, recursive, mutually recursive, named/anonymous/recursive discriminated types × 3 ref-template/container settings × 3 override settings) BFS over all call sequences, state = canonical (exportDefinitions, in-progress set) read from the real context, reached by replay on a fresh context, run to closure; invariants in every state: nothing in progress, each definition equals the fresh-context definition, returned schema independent of history, all needed definitions present, every $ref resolves, export independent of order/repetition",
       configurations: stats.configs,
       configurations_closed: stats.closed,
       depth_max: stats.maxDepth,
